@@ -91,3 +91,32 @@ func cmdModelRegistry(args []string) error {
 	_ = os.MkdirAll(filepath.Dir(*out), 0o755)
 	return os.WriteFile(*out, []byte(b.String()), 0o644)
 }
+
+// model-calib: the reference validator's verdict (go-openapi/validate, named by C02 as the reference
+// semantics) on (definition, document) pairs - calibration of JsonSchema!Valid, two-oracle rule.
+func init() { cmds["model-calib"] = cmdModelCalib }
+
+func cmdModelCalib(args []string) error {
+	fs := flag.NewFlagSet("model-calib", flag.ExitOnError)
+	specPath := fs.String("spec", "", "")
+	instPath := fs.String("instances", "", "")
+	_ = fs.Parse(args)
+	doc, err := loadsSpec(*specPath)
+	if err != nil {
+		return err
+	}
+	rows, err := readNDJSON(*instPath)
+	if err != nil {
+		return err
+	}
+	for _, r := range rows {
+		name := r["def"].(string)
+		sch, ok := doc.Spec().Definitions[name]
+		if !ok {
+			continue
+		}
+		valid := refValidate(&sch, doc.Spec(), roundTrip(taggedToJSON(r["doc"])))
+		fmt.Println(string(mustJSON(obj{"def": name, "i": r["i"], "valid": valid})))
+	}
+	return nil
+}
